@@ -1,6 +1,6 @@
 (* Extraction of the executable model. Only ExtrOcamlBasic and ExtrOcamlString directives are used. *)
 From Coq Require Import Extraction ExtrOcamlBasic ExtrOcamlString.
-From LN Require Import Model.Chars Model.Case Model.Names Model.Fs Model.Adapters Spec.Ident.
+From LN Require Import Model.Chars Model.Case Model.Names Model.Fs Model.Adapters Model.OpenApi Model.Hir Model.Extractor Model.Shake Spec.Ident.
 Extraction Language OCaml.
 Set Extraction AccessOpaque.
 Extraction "model.ml"
@@ -9,4 +9,5 @@ Extraction "model.ml"
   Names.op_file_name Names.op_name_of_id Names.qualified_env_var Names.package_name
   Ident.ident_ok Ident.name_dom
   Fs.gen Fs.crash Fs.crash_cleanup Fs.wwc Fs.in_scope
-  Adapters.ser_str Adapters.de_str Adapters.ser_nz Adapters.de_nz Adapters.ser_date Adapters.de_date Adapters.valid_date.
+  Adapters.ser_str Adapters.de_str Adapters.ser_nz Adapters.de_nz Adapters.ser_date Adapters.de_date Adapters.valid_date
+  Extractor.extract_without_treeshake Shake.extract_spec Shake.treeshake Shake.ListSet Hir.crowded_args Hir.server_strategy_of Hir.env_var_for_strategy Hir.safe_variant_names.
